@@ -275,7 +275,8 @@ class ULPIHost:
             await self.cycle(ctx, "down")
             self.last_rx_end = self.cycle_no            # the cycle in which DIR is low again
             self._present_t, self._blk = None, 0
-            if end == "dir_j" or self.hs:                  # (at high speed the line is back to squelch: always reported)
+            stuck_se0 = (self.phy.last_cmd & 3) == LS_SE0    # last line state reported inside the packet was SE0 (EOP)
+            if end == "dir_j" or self.hs or stuck_se0:     # the line is back to idle: reported (always at HS / after SE0)
                 self.rxcmd_at[self.cycle_no + 1 + pat.get("post", 0)] = self.vbus | idle_ls
         if pulse is not None:
             self.rxcmd_at[self.last_rx_end + pulse] = self.vbus | idle_ls
